@@ -120,6 +120,32 @@ func init() {
 				}
 				ls = append(ls, fl+" "+strings.Join(ops, ";"))
 			}
+			// explicit transactions around language-scoped reads that hit a stored translation, ended by Stop or Abort
+			for k := 0; k < c.Pick(400, 6000); k++ {
+				ops := []string{"W:" + hxs("c_nor") + ":" + hxs("t0")}
+				if c.Rng.Intn(2) == 0 {
+					ops = append(ops, "W:"+hxs("d_nor")+":"+hxs("t1"))
+				}
+				ops = append(ops, "B")
+				n := 1 + c.Rng.Intn(5)
+				for i := 0; i < n; i++ {
+					switch c.Rng.Intn(5) {
+					case 0, 1:
+						ops = append(ops, fmt.Sprintf("W:%s:%s", hxs([]string{"a", "b", "c", "c_nor"}[c.Rng.Intn(4)]), hxs("w"+strconv.Itoa(i))))
+					case 2, 3:
+						key := []string{"c", "c", "d", "a"}[c.Rng.Intn(4)]
+						ops = append(ops, fmt.Sprintf("G:%s:%s", hxs(key+"_nor"), hxs(key)))
+					default:
+						ops = append(ops, "G:-:"+hxs([]string{"a", "c", "zz"}[c.Rng.Intn(3)]))
+					}
+				}
+				ops = append(ops, []string{"E", "A", "A"}[c.Rng.Intn(3)], "G:-:"+hxs("a"))
+				fl := "-"
+				if c.Rng.Intn(4) == 0 {
+					fl = strconv.Itoa(c.Rng.Intn(3 * len(ops)))
+				}
+				ls = append(ls, fl+" "+strings.Join(ops, ";"))
+			}
 			return ls
 		},
 		Exec: func(c *Ctx, line string) string {
@@ -161,6 +187,7 @@ func pgRun(c *Ctx, fake *pgfake.Fake, ops []string, maxFault int, oracle bool) (
 	everMulti := false // Start succeeded at some point: the handle stays in multi mode (Stop does not leave it)
 	inMulti := false   // between a successful Start and the next Stop/Abort/Close/failed operation
 	var multiWrites map[string][]byte
+	var atStart map[string]string // committed table when the explicit transaction began
 	for oi, op := range ops {
 		p := strings.Split(op, ":")
 		where := fmt.Sprintf("op %d (%s) of %v", oi, op, ops)
@@ -245,8 +272,22 @@ func pgRun(c *Ctx, fake *pgfake.Fake, ops []string, maxFault int, oracle bool) (
 			case p[0] == "B" && opErr == nil:
 				everMulti, inMulti = true, true
 				multiWrites = map[string][]byte{}
-			case p[0] == "W" && inMulti && opErr == nil:
-				multiWrites[string(pgStorageKey(unhx(p[1])))] = unhx(p[2])
+				atStart = map[string]string{}
+				for k, v := range fake.Committed {
+					atStart[k] = string(v)
+				}
+			case (p[0] == "W" || p[0] == "G") && inMulti && opErr == nil:
+				if p[0] == "W" {
+					multiWrites[string(pgStorageKey(unhx(p[1])))] = unhx(p[2])
+				}
+				// the writes become visible at Stop, not while the transaction is still going on
+				for k, v := range multiWrites {
+					if cv, was := fake.Committed[k]; was && string(cv) == string(v) {
+						if sv, had := atStart[k]; !had || sv != string(v) {
+							c.Fail("C13", "multi-write-visible-before-stop", fmt.Sprintf("%s: write %x=%q is already committed while the explicit transaction is open", where, k, v))
+						}
+					}
+				}
 			case inMulti && p[0] == "E":
 				if opErr == nil {
 					// (4) all writes of a successful multi-operation transaction are visible at Stop
@@ -259,8 +300,8 @@ func pgRun(c *Ctx, fake *pgfake.Fake, ops []string, maxFault int, oracle bool) (
 				inMulti = false
 			case inMulti && p[0] == "A":
 				for k, v := range multiWrites {
-					if string(fake.Committed[k]) == string(v) {
-						if _, was := fake.Committed[k]; was && !pgCommittedBefore(fake, k, v) {
+					if cv, was := fake.Committed[k]; was && string(cv) == string(v) {
+						if sv, had := atStart[k]; !had || sv != string(v) {
 							c.Fail("C13", "multi-write-visible-after-abort", fmt.Sprintf("%s: write %x=%q is committed although the transaction was aborted", where, k, v))
 						}
 					}
@@ -306,17 +347,4 @@ func pgRun(c *Ctx, fake *pgfake.Fake, ops []string, maxFault int, oracle bool) (
 		outs = append(outs, res+"|"+pgStateOut(fake))
 	}
 	return outs, true
-}
-
-// pgCommittedBefore is a conservative stand-in: with the small alphabets used a value may legitimately have been
-// committed earlier by a single-operation Put; the harness values are unique per operation index in the random
-// stream, and in the exhaustive stream the check is skipped when the same value occurs twice.
-func pgCommittedBefore(f *pgfake.Fake, k string, v []byte) bool {
-	n := 0
-	for _, e := range f.Log {
-		if strings.HasPrefix(e, "commit:") {
-			n++
-		}
-	}
-	return n > 0
 }
